@@ -113,8 +113,34 @@ def window_list():
 
 
 def win(N, name):
-    from spectrum.window import Window
-    return np.asarray(Window(N, name).data, dtype=float)
+    """the samples of the named window at its DEFAULT shape parameters, from the window's own function (not through the factory's
+    routing tables, which the estimators themselves use: state left there by an earlier call must not hide in the oracle)"""
+    from spectrum import window as W
+    fn = getattr(W, W.window_names[name], None) if name in getattr(W, 'window_names', {}) else None
+    if fn is None:
+        return np.asarray(W.Window(N, name).data, dtype=float)
+    return np.asarray(fn(N), dtype=float)
+
+
+PARAMETRISED = {'kaiser': {'beta': 2.0}, 'blackman': {'alpha': 0.3}, 'gaussian': {'alpha': 5.0}, 'chebwin': {'attenuation': 80}, 'tukey': {'r': 0.1},
+                'flattop': {'mode': 'periodic'}, 'taylor': {'nbar': 6, 'sll': -50}, 'poisson': {'alpha': 4}, 'poisson_hanning': {'alpha': 4}, 'cauchy': {'alpha': 5}}
+
+
+def earlier_parametrised_calls():
+    """process history: every parametrised window family is requested ONCE with non-default shape parameters before the streams start (through the
+    factory, the Window class and the correlogram's window_params); a later request WITHOUT parameters must still mean the default shape"""
+    from spectrum import window as W
+    from spectrum import CORRELOGRAMPSD
+    for name, kw in PARAMETRISED.items():
+        for call in (lambda: W.create_window(16, name, **kw), lambda: W.Window(17, name, **kw)):
+            try:
+                call()
+            except Exception:
+                pass
+    try:
+        CORRELOGRAMPSD(np.arange(12.0), lag=4, NFFT=16, window='kaiser', window_params={'beta': 2.0})
+    except Exception:
+        pass
 
 
 def is_prime(n):
@@ -360,6 +386,7 @@ EVAL = {'speriodogram': eval_speriodogram, 'Periodogram': eval_class, 'CORRELOGR
 
 
 def replay(rep):
+    earlier_parametrised_calls()
     if rep.get('replay', {}).get('form') == 'routes':
         from props import _estimators as E_
         return E_.replay_routes(rep['replay'])
@@ -772,6 +799,7 @@ def run(ctx):
     import spectrum
     from props import _c01_pipeline
     ctx.check_theorems('Properties/C01.v')
+    earlier_parametrised_calls()
     # the estimate an object holds does not depend on the history that gave it its data and settings (every route of _estimators.via)
     from props import _estimators as E_
     E_.class_route_stream(ctx, ['Periodogram'], 'routes')
